@@ -54,6 +54,100 @@ CLAIMED = {
             "for both evaluator families (A3.2/A3.6 via A2.3 and A3.4/A3.8), rational and not, orders 0..degree+2, by exact correspondence; an independent exact jet-arithmetic oracle checks every returned vector, the hodograph constructors, tangent and normal.",
             "Not proved: the surface case and A4.2/A4.4 list models as Lean theorems about the model functions (scalar Leibniz theorem is); A2.3's table (spec-level model). Unit length of normalised vectors is floating point (oracle, 1e-12). "
             "F-02 (alternative surface evaluator, order > degree_u) was reported with a replay and fixed; F-02b (derivative_surface on C0 knots) is a recorded finding."),
+    'C08': ("7/C08",
+            "Lean theorems over the executable model, for every degree, elevation count, dimension, parameter and field of characteristic 0: binomial_coefficient = Nat.choose; "
+            "degree elevation preserves the Bernstein form (list model bridged to the Finset identity), keeps both end points, returns p+1+t points; rows of points via flattening; "
+            "rejection guards of both routines; the Bernstein form is A2.2 on the one-span clamped knot vector and the modelled curve evaluator returns it, so 'same curve' is the C01 "
+            "notion; on the REPAIRED degree_reduction, reduce o elevate_1 = id for every degree >= 1 and t reductions invert an elevation by t for every t >= 1 (loop invariants of both "
+            "sweeps, odd-degree average). F-08: the pinned routine is refuted at degree 5 (decide at Q, plus 'point 3 is zero' for every input). Model tied to helpers.degree_elevation / "
+            "degree_reduction, linalg.binomial_coefficient, one-span operations.degree_operations and the curve evaluator by exact-rational correspondence; independent de Casteljau oracle.",
+            "The model mirrors the repaired degree_reduction (fix: commit in /repo; the check reported the violation with a replay on the pinned tree first); rows of points are supported by the "
+            "helper only in flattened form; binomial_coefficient's float division is exact only below 2^53 (degrees used <= 18); operations.degree_operations on multi-span curves is not part of this check."),
+    'C16': ("7/C16",
+            "Lean theorems for all sizes over any ordered field: Doolittle LU (L unit lower, U upper, L*U = A when pivots are non-zero), forward/backward substitution, lu_solve (returns iff pivots non-zero; "
+            "A*x = b, also as a Mathlib Matrix statement), lu_factor (P*b), matrix_inverse (two-sided), matrix_pivot (one permutation sigma of the rows of A and of the identity; P*A; sign), "
+            "history independence with the memoised identity as explicit cache state (every call in every history returns the pure answer), strictly diagonally dominant => lu_solve returns and solves, "
+            "helpers (dot, cross incl. orthogonality, transpose involution, product = Matrix product, identity, binomial = Nat.choose, linspace); determinant = Matrix.det under 'no zero pivot after pivoting'. "
+            "Refutations by decide +kernel of the pinned behaviours F-16a / F-16c (repaired by fix: commits after the check reported them with replays) and of F-16b (recorded finding). Model tied to linalg.* by exact correspondence incl. call histories.",
+            "Model mirrors the repaired code for F-16a/F-16c and the pinned code for F-16b (open finding; matrixDeterminant_eq_det_partial excludes exactly that region). Collocation matrices => non-zero pivots, "
+            "the max-pivot property and the square-root helpers are oracle-only; frange, angle and triangle helpers are not covered."),
+    'C10': ("7/C10",
+            "Lean theorems: affine invariance of curve evaluation (if every control point of Q is the image of the corresponding point of P under one affine map of the coordinates, "
+            "every evaluated point of Q is the image of the evaluated point of P; uses partition of unity; any degree / knots / span / parameter / dimension; covers translation, scaling and "
+            "rotation about any centre with ANY c, s); the general lemmas for combinations with coefficients summing to one (surfaces, volumes) and for linear maps in homogeneous coordinates "
+            "(rational shapes); the model's translate / rotate formulas. The model (maps act on Cartesian points, weights unchanged, rotation centre = evaluated start point, cos/sin passed as the "
+            "doubles Python computes) is tied to operations.translate / rotate / scale on all six classes by exact correspondence; the oracle also checks inplace semantics, input snapshots and containers.",
+            "Not proved: the assembled statements for surfaces / volumes / rational shapes as theorems about surfacePointAt etc. (general lemmas are); object identity and containers are runtime notions (oracle only)."),
+    'C18': ("7/C18",
+            "Lean theorems (any degree, knots, span, parameter, dimension): for every linear functional the value at the evaluated curve point lies between any bounds of the functional on the p+1 active "
+            "control points (convex hull via all separating directions); every coordinate lies within the bounds of the control net (bounding box); clamped start and end: with p equal knots at the span "
+            "start / end A2.2 returns (1,0,..,0) / (0,..,0,1) and the evaluated point is the first / last active control point; rational coefficients N_i w_i / sum are non-negative and sum to one. "
+            "Model function boundingBox tied to the bbox property by exact correspondence; the exact oracle checks hull (axes + random directions), bbox, clamped ends on curves, surfaces, volumes, rational or not.",
+            "Not proved: surface / volume hull theorems as statements about surfacePointAt / volumePointAt; curve length bounds (floating point sqrt, oracle only)."),
+    'C09': ("7/C09",
+            "Lean theorems (23, all discharged): the list helpers combine / separate / generate_* are mutually inverse; for EVERY history of the three setters, the three reads and reverse the views "
+            "satisfy ctrlptsw = combine(ctrlpts, weights) (invariant by induction over the op list); setter round trips; bspline_to_nurbs / nurbs_to_bspline; unit weights evaluate identically and a common "
+            "weight factor c != 0 moves no point (curve, surface, volume); the weighted grid applies each point's own weight and its cache is consistent; refutations by decide of the pinned GridWeighted and reverse. "
+            "Tied to NURBS.* setters/getters, compatibility.*, convert.*, CPGen.GridWeighted by exact correspondence on object scripts.",
+            "Model = repaired code (F-09, F-12a fixed by fix: commits after the check reported them with replays). Evaluation theorems are about the model evaluators on a given non-empty span; scripts keep the point count fixed "
+            "(zip truncation in the setters is compared with the model but not judged)."),
+    'C13': ("7/C13",
+            "Lean theorems (29, all discharged) over an arbitrary point type, for all sizes and degrees: the flat layout v + sv*(u + su*w) is a bijection with explicit inverse; ctrlpts2d getter/setter, the control-point "
+            "managers, flips, extraction of iso-curves / iso-surfaces all address flatIdx; the two flips are mutually inverse; transpose is an involution with S^T(v,u) = S(u,v); extract-then-construct is the identity "
+            "for surfaces (both directions) and volumes (all three directions, repaired code); sweep boundary sections are the input and its translate; kernel-checked refutations of the pinned construct_volume('u'|'v') "
+            "and sweep_vector(curve). Tied to construct.*, sweeping.sweep_vector, operations.transpose/flip, ctrlpts2d, control_points managers by exact correspondence (27 op kinds) plus an exact oracle on the public API.",
+            "Model mirrors the repaired code (F-13a, F-13b fixed by fix: commits after the check reported them with replays). Boundary iso-curve identity, the weight split/recombine and knot-vector validation are oracle-only; "
+            "transpose leaves sample sizes unswapped (recorded observation, not checked)."),
+    'C17': ("7/C17",
+            "Lean theorems: binary span search = linear span search (termination included) for every degree / knots / parameter under the tolerance hypothesis that F-17b violates; span search, A2.2 and curve evaluation are "
+            "invariant under an increasing affine map of knots and parameter (normalised vs original knot range); an LRU cache of ANY capacity is transparent for EVERY call history (the contract behind GEOMDL_CACHE_SIZE); "
+            "both evaluator families are tied to one model function (C02). Correspondence: objects built with find_span_binsearch and with normalize_kv=True on affine knot ranges against the same model lines; the harness "
+            "imports the package in sub-interpreters under GEOMDL_CACHE_SIZE in {unset,1,16,1024} and runs tessellation / voxelisation with num_procs in {1,2,4,8}, comparing results.",
+            "Runtime parts (process pools, functools.lru_cache itself, environment) cannot be exhibited by a theorem: they are compared by the harness in floating point only. F-17a (import fails when GEOMDL_CACHE_SIZE is set) was "
+            "reported with a replay and fixed; F-17b and F-01 are recorded findings reported by C03 / C01."),
+    'C19': ("7/C19",
+            "Lean theorems (15, all discharged): the repaired == is reflexive, symmetric for equal tolerance, a deep copy equals its source; eqShape_iff: on well-formed shapes equality holds exactly when kind, rationality, "
+            "sizes and degrees match and every knot and homogeneous coordinate is within tolerance; changing a single net coordinate / weight / knot by more than the tolerance or a degree makes the shapes unequal; refutations of the pinned "
+            "behaviour by decide. Tied to a == b, b == a, a != b on BSpline/NURBS Curve/Surface/Volume pairs (identical, deep copies, perturbations at 1/2 .. 10 times the tolerance, structural differences) by exact correspondence.",
+            "Model = repaired __eq__ (F-19 fixed by a fix: commit after the check reported it with a replay); tolerance = value of 10 ** (-precision) passed to the model by the harness; mixed-precision pairs (asymmetric ==) are compared "
+            "with the model but not judged; copy.deepcopy itself is checked by the oracle only."),
+    'C15': ("7/C15",
+            "Lean theorems (22) over the repaired model, for all grid sizes >= 2 and any spacing: vertex ids 0..V-1, every face index < V, faces exactly the two triangles of every cell, F = 2(nu-1)(nv-1), uniform positive "
+            "orientation, area sum = the rectangle's, cell partition, duplicate-free edge list with explicit E, edge incidences (boundary 1, interior 2 in opposite directions), V - E + F = 1, quad mesh, export offsets and blocks, "
+            "STL normal = cross product orthogonal to the edges, stored uv = the sampling parameter; refutation of the pinned size expression for every dividing spacing >= 3. Exact correspondence with TriangularTessellate, "
+            "QuadTessellate, Surface.tessellate, SurfaceContainer, export_obj/off/stl, triangle_normal.",
+            "Trimmed tessellation is not modelled (exact oracle test on rectangular polygonal trims only; spline trims untested); the whole-rectangle point-set tiling is not assembled into one theorem; file syntax and binary STL packing are oracle-only. "
+            "F-15 was reported with a replay and fixed; F-01 and F-15b (container sample size) are recorded findings."),
+    'C20': ("7/C20",
+            "Lean theorems (31) over any linearly ordered field: is_left = 2x2 determinant with sign meaning and affine covariance; wn_poly crossing rule, translation / reversal / start-vertex invariance; ray status characterised "
+            "(COLINEAR iff cross product below tol; with exact magnitude: INTERSECT iff line distance < tol, intersection identity p1 + t1 d1 = p2 + t2 d2, completeness, 2-D always coplanar); voxel in/out test = padded interval test, "
+            "frange termination and coverage, the grid covers the bounding box, filled iff some sampled point inside; find_ctrlpts = indices span-p..span which contain the support of the basis (Cox-de Boor local support). "
+            "Correspondence and exact oracle on ray.intersect, linalg.is_left / wn_poly / convex_hull, voxelize.voxelize, operations.find_ctrlpts plus frange / grid / in-out helpers.",
+            "Hull containment / convexity and wn = inside are oracle-checked only; ray theorems assume the exact square root (the rounded sqrt is passed to the model as an input). Open finding F-20a: use_cubes=True on a flat bounding box never returns."),
+    'C11': ("7/C11",
+            "Lean theorems: collocation_interpolates - whenever lu_solve returns control points for the collocation system of ANY parameter list and knot vector, the curve evaluated (span by linear search, A2.2/A3.1) at the "
+            "i-th parameter is the i-th data point (every degree, dimension, number of points; composition of the LU correctness theorem of C16, the row structure of the collocation matrix and the evaluation model); "
+            "interpolateCurve_interpolates - the same for the model of fitting.interpolate_curve end to end; parameters start at 0; the approximation keeps the first and last data point as end control points. "
+            "The model (parametrisation with chord lengths as inputs, averaged knot vectors Eq. 9.8 and 9.68/9.69, collocation matrix, curve and two-pass surface interpolation, least-squares curve approximation via the normal equations) "
+            "is tied to fitting.interpolate_curve / interpolate_surface / approximate_curve by exact correspondence (the sqrt doubles are recomputed by the harness and passed as exact values).",
+            "Hypothesis, not proved: the collocation matrix has non-zero Doolittle pivots (the harness checks lu_solve returns on every generated data set). Not proved in Lean: surface interpolation, the minimisation property "
+            "(the exact oracle checks the normal equations and end/corner interpolation); approximate_surface is oracle-only."),
+    'C14': ("7/C14",
+            "Lean theorems (25) over a token-level model (numbers are abstract tokens) of the smesh, vmesh (repaired), txt 1-D/2-D and csv files and of the dict form behind JSON (trims, delta, sense flags, containers): "
+            "import o export = identity up to rational form (unit weights) and normalised knot vectors for every degree, size triple, net and container length; documented row/column order; evaluation invariant under the reader's "
+            "knot normalisation; pinned vmesh reader and pinned 2-D file saver refuted by kernel decide on 2x3x4 and 2x3 witnesses. The real writers' file contents (tokenised, numbers canonicalised) and the real readers' results are "
+            "compared with the model's; the oracle checks export-then-import at public level for JSON (curves, surfaces, volumes, containers, trims, delta), smesh, vmesh, txt, csv.",
+            "Numbers are abstract tokens: the print/parse round trip is checked only by the float-mode companion at printed precision. Exact mode runs smesh/vmesh natively, txt/csv through an extended float shadow, JSON with dyadic inputs. "
+            "YAML / libconfig / Jinja2 skipped (packages missing). Model mirrors the repaired code (F-14a, F-14b fixed by fix: commits after the check reported them with replays)."),
+    'C12': ("7/C12",
+            "The cache-effect table of every public mutator / reader of BSpline/NURBS Curve/Surface/Volume and the multi containers (224 operations, ~980 event paths of clear / write / fill) is REGENERATED from /repo's AST on every run "
+            "by harness/effects.py and re-checked by the Lean kernel (all_paths_ok, decide +kernel): every path of every operation preserves 'no cache is stale' from every abstract state; lifted once and for all to every finite history "
+            "(history_no_stale, induction over the operation list) and shown sound for a concrete field / cache model (history_inv: every non-empty cache equals the fresh value; getter_fresh; eager_kept; copy_inv); a failing table entry has a "
+            "concrete stale witness (failing_path_has_witness). The translator is validated dynamically on every run against traced real objects (every logged event sequence must be an extracted path); a value-level history oracle compares "
+            "every derived view after every step of random histories with a freshly built object in exact arithmetic and checks deep-copy independence; an abstract replay of observed cache states runs through the driver.",
+            "Per-object discipline only: cross-object staleness of containers (F-12b) and in-place emptying of returned lists (F-12c) are open recorded findings seen by the oracle; deep-copy independence is oracle-checked, not proved; exceptions "
+            "inside callees mid-mutator are not modelled; the field / cache vocabulary and 'a fill uses the current fields' are assumptions validated per step by the oracle; trims and expert setters are excluded. F-12a and F-12d were reported "
+            "(failing all_paths_ok naming the operation + a concrete replay) and fixed."),
     'C03': ("7/C03",
             "Lean theorems over the executable model (any degree, any non-decreasing knot function, any parameter, any ordered field): "
             "linear span search returns the unique half-open interval; binary search (termination included) equals linear search under the tolerance hypothesis that F-17b violates (refuted without it by decide +kernel); A2.2 has p+1 non-negative values summing to 1 and equals the Cox-de Boor "
